@@ -41,7 +41,7 @@ ASSUMPTIONS = ["PARTIAL: the expectation is not a theorem. Proved: every slot ho
 
 
 def correspond(run):
-    n = 500 if run.tier == "quick" else 5000
+    n = 500 if run.depth == "quick" else 5000
     rc, js, out, err = vlib.harness(["ord-cases", "--seed", run.seed + 10, "--n", n, "--break-on-reject", sklib.flags_ord()], timeout=1200)
     if rc != 0 or js is None:
         run.oblige("correspondence:ord-cases", "correspondence", False, (out[-300:] + err[-300:]))
